@@ -286,6 +286,58 @@ func (c *FuncCtx) productFacts(a, b *Term) []*Term {
 
 // symValue materialises a symbolic value of Go type t.
 func (c *FuncCtx) symValue(st *State, name string, t types.Type) Value {
+	return c.symValueK(st, name, t, nil)
+}
+
+// leaf builds the term of a scalar leaf: a variable, or an uninterpreted function of the key.
+func leafTerm(name string, key []*Term, s Sort) *Term {
+	if key == nil {
+		return Var(name, s)
+	}
+	return App("F."+name, s, key...)
+}
+
+func (c *FuncCtx) symValueK(st *State, name string, t types.Type, key []*Term) Value {
+	if key != nil {
+		switch u := t.Underlying().(type) {
+		case *types.Basic:
+			if u.Info()&types.IsBoolean != 0 {
+				return BoolV{leafTerm(name, key, SBool)}
+			}
+			if k, ok := intKindOf(t); ok {
+				v := leafTerm(name, key, SInt)
+				if k.bits > 0 {
+					lo, hi := k.rng()
+					// the range fact holds for every key (index), so it is sound for any free symbol in it
+					c.setRange(v, lo, hi)
+					st.assume(And(Le(Const(lo), v), Le(v, Const(hi))))
+				}
+				return IntV{v}
+			}
+			return OpaqueV{Desc: name, T: t}
+		case *types.Array:
+			if u.Len() <= 64 {
+				a := ArrV{}
+				for i := int64(0); i < u.Len(); i++ {
+					a.Elems = append(a.Elems, c.symValueK(st, fmt.Sprintf("%s.%d", name, i), u.Elem(), key))
+				}
+				return a
+			}
+			return OpaqueV{Desc: name, T: t}
+		case *types.Slice:
+			sl := SliceV{Addr: leafTerm(name+".addr", key, SInt), Len: leafTerm(name+".len", key, SInt), Cap: leafTerm(name+".cap", key, SInt), Elem: u.Elem()}
+			c.sliceFacts(st, sl)
+			return sl
+		case *types.Pointer:
+			if _, ok := u.Elem().Underlying().(*types.Struct); ok {
+				return &StructV{T: u.Elem(), Prefix: name, F: map[string]Value{}, Key: key}
+			}
+			return OpaqueV{Desc: name, T: t}
+		case *types.Struct:
+			return &StructV{T: t, Prefix: name, F: map[string]Value{}, Key: key}
+		}
+		return OpaqueV{Desc: name, T: t}
+	}
 	if isErrorType(t) {
 		return ErrV{Var(name+".isnil", SBool)}
 	}
@@ -350,7 +402,7 @@ func (c *FuncCtx) field(st *State, sv *StructV, name string) Value {
 	for i := 0; i < stt.NumFields(); i++ {
 		f := stt.Field(i)
 		if f.Name() == name {
-			v := c.symValue(st, sv.Prefix+"."+name, f.Type())
+			v := c.symValueK(st, sv.Prefix+"."+name, f.Type(), sv.Key)
 			sv.F[name] = v
 			return v
 		}
